@@ -35,6 +35,9 @@ def ns(cls):
         hash(v)
         return v
     out["hashed"] = hashed
+    # the objects and types of the *other* free categories: a type may be built from them
+    from discopy import cat, monoidal
+    out.update(cat_Ob=cat.Ob, MTy=monoidal.Ty, MBox=monoidal.Box)
     return out
 
 
@@ -82,6 +85,12 @@ def entries(cls, quick=True):
               ["Ty(%s, %s)" % (a, b) for a in atoms[:4] for b in atoms[:4]] + \
               ["Ty('n').r", "Ty('n').l", "Ty('n').r.r", "Ty('n').l.r", "Ty('n', 'm').r", "PRO(2)", "PRO(2).r"]
         X, Y = "Ty('n')", "Ty(Ob('n', z=1))"
+    # the same types reached from objects of another class or through the no-argument identity
+    if cls == "rigid":
+        tys += ["Ty(cat_Ob('n'))", "Ty(*MTy('n', 'm'))", "Ty('n') @ MTy('m')", "Ty(cat_Ob('n'), Ob('n', z=1))",
+                "Id().dom", "(Id() @ Box('f', Ty('n'), Ty(Ob('n', z=1)))).cod", "Ty(Ob('n', z=1)) @ Ty()"]
+    else:
+        tys += ["Ty(cat_Ob('x'))", "Ty(*Ty('x', 'y'))", "Ty('x') @ Ty()", "Id().dom", "(Id() @ Box('f', Ty('x'), Ty('y'))).cod"]
     out += [("expr", t) for t in tys]
     for d in PAYLOADS:
         out.append(("expr", "Box('f', %s, %s, data=%s)" % (X, Y, d)))
@@ -107,7 +116,14 @@ def entries(cls, quick=True):
             "Box('f', %s, %s) + Box('g', %s, %s)" % (X, Y, X, Y),
             "Sum([Id(%s) >> Box('f', %s, %s)])" % (X, X, Y),
             "Sum([Box('f', %s, %s) @ Id(%s)])" % (X, Y, X),
-            "Sum((Box('f', %s, %s), Box('g', %s, %s)))" % (X, Y, X, Y)]
+            "Sum((Box('f', %s, %s), Box('g', %s, %s)))" % (X, Y, X, Y),
+            # built on the no-argument identity, and on types made from foreign objects
+            "Id() @ Box('f', %s, %s)" % (X, Y), "Id() @ Box('f', %s, %s) @ Box('g', %s, %s)" % (X, Y, X, Y),
+            "Box('f', %s, %s) @ Box('g', %s, %s) @ Id()" % (X, Y, X, Y), "Id() >> Id()", "Id() @ Id(%s)" % Y,
+            "Diagram(%s @ %s, %s @ %s, [Box('f', %s, %s), Box('g', %s, %s)], [0, 1])" % (X, X, Y, Y, X, Y, X, Y)]
+    if cls == "rigid":
+        more += ["Box('f', Ty(cat_Ob('n')), Ty(Ob('n', z=1)))", "Box('f', Ty(*MTy('n')), %s)" % Y,
+                 "Id() @ Box('f', %s, %s) @ Box('g', %s, %s)" % (Y, X, Y, X)]
     if cls == "rigid":
         N = "Ty('n')"
         more += ["Cup(%s, %s.r)" % (N, N), "Cup(%s.l, %s)" % (N, N), "Cup(%s.r, %s)" % (N, N),
